@@ -37,6 +37,13 @@ func (s *BaseOperationService) GetOperationByID(operationID string) (*types.Oper
 }
 
 func (s *BaseOperationService) PutOperation(operation *types.Operation) error {
+	// an operation's id is derived from its round and payload: when the very same operation is
+	// still pending (e.g. the proposal of a cancelled batch posted again, after the round has been
+	// advanced and saved) there is nothing to add, and failing here would report a message that
+	// HAS been applied as refused
+	if _, err := s.operationRepo.GetOperationByID(operation.ID); err == nil {
+		return nil
+	}
 	if err := s.operationRepo.PutOperation(operation); err != nil {
 		return fmt.Errorf("failed to put operation: %w", err)
 	}
